@@ -345,6 +345,22 @@ func streamVerlaws(g *core.G) {
 			c = b
 			c.Version = strings.Repeat("0", r.Intn(3)) + c.Version // often equal to b
 		}
+		if r.Chance(1, 10) {
+			// spellings around one small number: signs and letters after a dot, zero padding, tildes,
+			// digit runs around the machine-word limits; as upstream parts and as revisions
+			num := strconv.Itoa(r.Intn(12))
+			if r.Chance(1, 4) {
+				num = r.Pick([]string{"9223372036854775807", "9223372036854775808", "18446744073709551615", "18446744073709551616", "9999999999999999999", "99999999999999999999"})
+			}
+			base := r.Pick([]string{"1.", "1.0.", "", "a"})
+			xs := []string{base + num, base + "+" + num, base + "-" + num, base + num + "a", base + "0" + num, base + num + ".0", base + num + "+", base + "~" + num, base + num + "~", base, base + "0"}
+			a.Version, b.Version, c.Version = r.Pick(xs), r.Pick(xs), r.Pick(xs)
+			if r.Bool() {
+				a.Revision, b.Revision, c.Revision = strings.ReplaceAll(a.Version, "-", ""), strings.ReplaceAll(b.Version, "-", ""), strings.ReplaceAll(c.Version, "-", "")
+				a.Version, b.Version, c.Version = "1", "1", "1"
+			}
+			a.Epoch, b.Epoch, c.Epoch = 0, 0, 0
+		}
 		g.Emit("law-vercmp3", append(append(encVersion(a), encVersion(b)...), encVersion(c)...)...)
 	}
 	for i := 0; i < n/40; i++ {
